@@ -438,6 +438,28 @@ fn structured_cases(ctx: &Ctx, scratch: &std::path::Path) -> Vec<Case> {
         s
     });
     add("long/macro-arg-blowup", ".macro m\nm @0@0\n.endm\nm 1\n".into());
+    // work that no step hook sees: a long macro body called with very many arguments (the allocator-call
+    // budget is the deterministic measure for it)
+    for (lines, args) in [(4000usize, 6000usize), (8000, 8001)] {
+        if lines == 8000 && ctx.tier != Tier::Thorough {
+            continue;
+        }
+        for (shape, body_line, arg) in [("plain", "nop", "1"), ("param", "ldi r16, @0", "1"), ("data", ".db @1, @0", "2")] {
+            if lines * (body_line.len() + 1) + args * (arg.len() + 1) + 32 > 65536 {
+                continue;
+            }
+            let mut s = String::from(".macro m\n");
+            for _ in 0..lines {
+                s.push_str(body_line);
+                s.push('\n');
+            }
+            s.push_str(".endm\nm ");
+            s.push_str(&vec![arg; args].join(","));
+            s.push('\n');
+            let _ = shape; // one construct: the shapes differ only in what the body lines do with the arguments
+            add("long/macro-body-x-arguments", s);
+        }
+    }
     add("odd/nul-bytes", "nop\0nop\n\0\n".into());
     add("odd/only-cr", "nop\rnop\rnop\r".into());
     add("odd/bom", "\u{feff}nop\n".into());
@@ -601,6 +623,14 @@ fn mutation_cases(ctx: &Ctx, n: u64) -> Vec<Case> {
     v
 }
 
+/// Allocator calls a build may make: proportional to what the step hooks and the source length account
+/// for. Largest ratio seen on the unchanged tree over the whole workload: 26 calls per (step + byte).
+const CHURN_PER_UNIT: u64 = 400;
+const CHURN_FREE: u64 = 2_000_000;
+fn is_churn(allocs: u64, steps: u64, len: usize) -> bool {
+    allocs > CHURN_FREE + CHURN_PER_UNIT * (steps + len as u64)
+}
+
 struct Stats {
     outcomes: BTreeMap<String, u64>,
     templates: BTreeMap<String, u64>,
@@ -608,6 +638,10 @@ struct Stats {
     max_steps_per_byte: f64,
     max_depth: u32,
     max_peak: u64,
+    max_allocs: u64,
+    max_allocs_case: String,
+    max_allocs_per_unit: f64,
+    max_apu_case: String,
     max_micros: u64,
     slowest: String,
 }
@@ -642,7 +676,7 @@ fn run_cases(ctx: &Ctx, cases: &[Case], stats: &Mutex<Stats>, confirm: bool) {
         let text_preview = || fw::clip(&String::from_utf8_lossy(&c.text), 300);
         let replay = |extra: Value| json!({"kind": (c.kind as char).to_string(), "text": String::from_utf8_lossy(&c.text), "construct": c.construct, "detail": extra});
         match v {
-            Verdict::Done { kind, steps, depth, peak, micros, msg, .. } => {
+            Verdict::Done { kind, steps, depth, peak, micros, msg, allocs, .. } => {
                 let mut st = stats.lock().unwrap();
                 *st.outcomes.entry(kind.clone()).or_insert(0) += 1;
                 if kind == "err" {
@@ -655,16 +689,36 @@ fn run_cases(ctx: &Ctx, cases: &[Case], stats: &Mutex<Stats>, confirm: bool) {
                 }
                 st.max_depth = st.max_depth.max(*depth);
                 st.max_peak = st.max_peak.max(*peak);
+                if *allocs > st.max_allocs {
+                    st.max_allocs = *allocs;
+                    st.max_allocs_case = format!("{} ({} bytes, {} steps)", c.construct, c.text.len(), steps);
+                }
+                let apu = *allocs as f64 / ((*steps + c.text.len() as u64).max(1) as f64);
+                if apu > st.max_allocs_per_unit && *allocs > 100_000 {
+                    st.max_allocs_per_unit = apu;
+                    st.max_apu_case = format!("{} ({} bytes, {} steps, {} calls)", c.construct, c.text.len(), steps, allocs);
+                }
                 if *micros > st.max_micros {
                     st.max_micros = *micros;
                     st.slowest = c.construct.clone();
                 }
                 drop(st);
+                if is_churn(*allocs, *steps, c.text.len()) {
+                    report_abnormal(
+                        ctx,
+                        c,
+                        "churn",
+                        format!("{} allocator calls for {} bytes of source and {} hook steps (allowed: {} + {} per byte or step) on `{}`", allocs, c.text.len(), steps, CHURN_FREE, CHURN_PER_UNIT, text_preview()),
+                        replay(json!({"allocator_calls": allocs, "steps": steps})),
+                        confirm,
+                    );
+                }
                 if kind == "panic" {
                     ctx.violation(format!("crash/panic/{}", c.construct), format!("`{}` panicked: {}", text_preview(), fw::clip(msg, 160)), replay(json!({"panic": msg})));
                 }
             }
             Verdict::Hang { steps } => report_abnormal(ctx, c, "hang", format!("step budget exceeded ({} hook steps) on `{}`", steps, text_preview()), replay(json!({"steps": steps})), confirm),
+            Verdict::Churn { calls } => report_abnormal(ctx, c, "churn", format!("allocator-call budget exceeded ({} calls for {} bytes of source) on `{}`", calls, c.text.len(), text_preview()), replay(json!({"calls": calls})), confirm),
             Verdict::Memory { live } => report_abnormal(ctx, c, "memory", format!("live heap reached {} MiB (cap {} MiB) on `{}`", live >> 20, worker::HEAP_CAP >> 20, text_preview()), replay(json!({"live": live})), confirm),
             Verdict::Crash { how, stderr } => {
                 let kind = if stderr.contains("overflowed its stack") {
@@ -695,6 +749,8 @@ fn report_abnormal(ctx: &Ctx, c: &Case, kind: &str, what: String, replay: Value,
         let same = match (&a, kind) {
             (Some(Verdict::Hang { .. }), "hang") => true,
             (Some(Verdict::Memory { .. }), "memory") => true,
+            (Some(Verdict::Churn { .. }), "churn") => true,
+            (Some(Verdict::Done { allocs, steps, .. }), "churn") => is_churn(*allocs, *steps, c.text.len()),
             (Some(Verdict::Crash { .. }), "stack" | "abort" | "alloc-abort") => true,
             _ => false,
         };
@@ -708,7 +764,7 @@ fn report_abnormal(ctx: &Ctx, c: &Case, kind: &str, what: String, replay: Value,
 
 pub fn run(ctx: &Ctx) -> i32 {
     let scratch = fw::verif_root().join("build").join(format!("scratch-c16-{}", std::process::id()));
-    let stats = Mutex::new(Stats { outcomes: BTreeMap::new(), templates: BTreeMap::new(), max_steps: 0, max_steps_per_byte: 0.0, max_depth: 0, max_peak: 0, max_micros: 0, slowest: String::new() });
+    let stats = Mutex::new(Stats { outcomes: BTreeMap::new(), templates: BTreeMap::new(), max_steps: 0, max_steps_per_byte: 0.0, max_depth: 0, max_peak: 0, max_allocs: 0, max_allocs_case: String::new(), max_allocs_per_unit: 0.0, max_apu_case: String::new(), max_micros: 0, slowest: String::new() });
     let dict = dictionary_cases(ctx);
     ctx.put("dictionary_cases", json!(dict.len()));
     ctx.put("dictionary_heads", json!(heads().len()));
@@ -752,6 +808,8 @@ pub fn run(ctx: &Ctx) -> i32 {
     ctx.put("max_hook_steps_per_input_byte", json!(st.max_steps_per_byte));
     ctx.put("max_expression_depth", json!(st.max_depth));
     ctx.put("max_peak_heap_bytes", json!(st.max_peak));
+    ctx.put("max_allocator_calls", json!({"calls": st.max_allocs, "case": st.max_allocs_case}));
+    ctx.put("max_allocator_calls_per_step_or_byte", json!({"ratio": st.max_allocs_per_unit, "case": st.max_apu_case}));
     ctx.put("max_build_micros", json!(st.max_micros));
     ctx.put("slowest_construct", json!(st.slowest));
     ctx.put("limits", json!({"step_budget": worker::STEP_BUDGET, "heap_cap_bytes": worker::HEAP_CAP, "stack": "main thread of the worker (8 MiB default)", "wall_backstop_s": worker::WALL_BACKSTOP_S}));
@@ -774,7 +832,7 @@ pub fn run(ctx: &Ctx) -> i32 {
 pub fn replay(ctx: &Ctx, case: &Value) -> i32 {
     let kind = case["kind"].as_str().and_then(|s| s.bytes().next()).unwrap_or(b'S');
     let c = Case { kind, text: case["text"].as_str().unwrap_or("").as_bytes().to_vec(), construct: case["construct"].as_str().unwrap_or("replay").to_string(), family: "replay" };
-    let stats = Mutex::new(Stats { outcomes: BTreeMap::new(), templates: BTreeMap::new(), max_steps: 0, max_steps_per_byte: 0.0, max_depth: 0, max_peak: 0, max_micros: 0, slowest: String::new() });
+    let stats = Mutex::new(Stats { outcomes: BTreeMap::new(), templates: BTreeMap::new(), max_steps: 0, max_steps_per_byte: 0.0, max_depth: 0, max_peak: 0, max_allocs: 0, max_allocs_case: String::new(), max_allocs_per_unit: 0.0, max_apu_case: String::new(), max_micros: 0, slowest: String::new() });
     run_cases(ctx, std::slice::from_ref(&c), &stats, false);
     ctx.distinct(1);
     ctx.distinct(2);
